@@ -54,31 +54,65 @@ structure IAttr where
   deriving DecidableEq, Repr, Inhabited
 
 /-- The decision rules of `Call.reference_accesses` / `IntrinsicCall.reference_accesses`
-as data, so that the pinned and the repaired code are two instances of one model.
+as data, so that the pinned and the repaired code are instances of one model.
 `callRW pure isStmt`: by-reference arguments of a user call get READWRITE (else READ).
 `intrRW pure inquiry isStmt`: by-reference arguments of an intrinsic get READWRITE
-(else they are visited as ordinary expressions, i.e. READ). -/
+(else they are visited as ordinary expressions, i.e. READ).
+`inqSubs`: the subscripts of the (skipped) first argument of an inquiry intrinsic are visited.
+`useIntents`: for a CALL of a PURE subroutine whose definition is in the same Container the
+arguments whose dummy is not INTENT(IN) get READWRITE.
+`cbRW`: a CodeBlock records every name of its text READWRITE (else nothing). -/
 structure Rule where
   callRW : Bool → Bool → Bool
   intrRW : Bool → Bool → Bool → Bool
-
-/-- the code with fixes/C11-intrinsic-subroutine-args-written.patch applied: an intrinsic that
-is a statement (child of a Schedule) marks its by-reference arguments READWRITE;
-`Call.reference_accesses` is unchanged (`if self.is_pure: READ`) -/
-def fixedRule : Rule where
-  callRW pure _ := !pure
-  intrRW _ _ isStmt := isStmt
+  inqSubs : Bool
+  useIntents : Bool
+  /-- every name that occurs in the text of a CodeBlock is recorded READWRITE
+  (fixes/C11-codeblock-accesses.patch) -/
+  cbRW : Bool
 
 /-- the pinned code: `if self.is_pure: READ`; intrinsic arguments are always only visited -/
 def pinnedRule : Rule where
   callRW pure _ := !pure
   intrRW _ _ _ := false
+  inqSubs := false
+  useIntents := false
+  cbRW := false
+
+/-- fixes/C11-intrinsic-subroutine-args-written.patch only: an intrinsic that is a statement
+(child of a Schedule) marks its by-reference arguments READWRITE -/
+def fixed1Rule : Rule where
+  callRW pure _ := !pure
+  intrRW _ _ isStmt := isStmt
+  inqSubs := false
+  useIntents := false
+  cbRW := false
+
+/-- the code with the first three C11 patches (intrinsic-subroutine-args-written,
+inquiry-subscripts, pure-subroutine-local-intents) -/
+def fixed3Rule : Rule where
+  callRW pure _ := !pure
+  intrRW _ _ isStmt := isStmt
+  inqSubs := true
+  useIntents := true
+  cbRW := false
+
+/-- the code with all four C11 patches (… and codeblock-accesses) -/
+def fixedRule : Rule where
+  callRW pure _ := !pure
+  intrRW _ _ isStmt := isStmt
+  inqSubs := true
+  useIntents := true
+  cbRW := true
 
 /-- what the property needs: only a pure *function* leaves its arguments alone (a pure
 subroutine may have INTENT(OUT) dummies) -/
 def idealRule : Rule where
   callRW pure isStmt := !(pure && !isStmt)
   intrRW _ _ isStmt := isStmt
+  inqSubs := true
+  useIntents := true
+  cbRW := true
 
 structure Ctx where
   rule : Rule
@@ -116,8 +150,17 @@ inductive Stmt where
   | ifThen (c : Expr) (t : Stmt)
   | ite (c : Expr) (t f : Stmt)
   | loop (v : Nat) (lo hi step : Expr) (body : Stmt)
-  /-- `call f(args)` of a user routine (call site `f`) -/
-  | call (pure : Bool) (f : Nat) (args : Expr)
+  /-- `do while (c) body` -/
+  | while (c : Expr) (body : Stmt)
+  /-- `return` -/
+  | ret
+  /-- a CodeBlock (opaque Fortran text; site `f`): the names occurring in its text (in order, with
+  repetitions) and the variables it may read / may define -/
+  | opaque (f : Nat) (names rd wr : List Nat)
+  /-- `call f(args)` of a user routine (call site `f`).  `mods = some m`: the definition of the
+  routine is in the same Container and bit `p` of `m` is set iff its `p`-th dummy argument is not
+  INTENT(IN); `none`: the definition is not available. -/
+  | call (pure : Bool) (mods : Option Nat) (f : Nat) (args : Expr)
   /-- intrinsic used as a statement: intrinsic subroutines, ALLOCATE, DEALLOCATE (site `f`) -/
   | icall (k : Nat) (f : Nat) (args : Expr)
   deriving DecidableEq, Repr, Inhabited
@@ -139,9 +182,12 @@ inductive Mode where
   /-- one argument of a call whose by-reference arguments get kind `k`
   (the `for arg in self.arguments` body of `Call.reference_accesses`) -/
   | elem (k : Kind)
+  /-- only the subscript expressions of a reference are visited (first argument of an inquiry) -/
+  | subs
   /-- an argument list; `ko = none`: every argument is visited with `reference_accesses`;
+  bit `p` of `mask` set: the `p`-th argument gets READWRITE whatever `ko` says;
   `skip`: the first argument is dropped (`self.arguments[1:]` of an inquiry intrinsic) -/
-  | spine (ko : Option Kind) (skip : Bool)
+  | spine (ko : Option Kind) (mask : Nat) (skip : Bool)
   deriving DecidableEq, Repr
 
 def kindOf (rw : Bool) : Kind := if rw then .readwrite else .read
@@ -154,13 +200,24 @@ def elemMode : Option Kind → Mode
 accesses in the order of the `add_access` calls and the new location counter -/
 def acc (c : Ctx) : Expr → Mode → Nat → List Access × Nat
   -- argument lists
-  | .nil, .spine _ _, l => ([], l)
-  | .cons e rest, .spine ko skip, l =>
-      if skip then acc c rest (.spine ko false) l
-      else
-        let r1 := acc c e (elemMode ko) l
-        let r2 := acc c rest (.spine ko false) r1.2
+  | .nil, .spine _ _ _, l => ([], l)
+  | .cons e rest, .spine ko mask skip, l =>
+      if skip then
+        let r1 := if c.rule.inqSubs then acc c e .subs l else ([], l)
+        let r2 := acc c rest (.spine ko (mask / 2) false) r1.2
         (r1.1 ++ r2.1, r2.2)
+      else
+        let r1 := acc c e (elemMode (if mask % 2 = 1 then some .readwrite else ko)) l
+        let r2 := acc c rest (.spine ko (mask / 2) false) r1.2
+        (r1.1 ++ r2.1, r2.2)
+  -- the subscripts of the inquired argument (fixes/C11-inquiry-subscripts.patch)
+  | .idx1 _ i, .subs, l => acc c i .val l
+  | .idx2 _ i j, .subs, l =>
+      let r1 := acc c i .val l
+      let r2 := acc c j .val r1.2
+      (r1.1 ++ r2.1, r2.2)
+  | .idxs _ _ is, .subs, l => acc c is .val l
+  | _, .subs, l => ([], l)
   -- one by-reference argument: the access is added first, then the index expressions are visited
   | .var x, .elem k, l => ([⟨x, k, l, 0⟩], l)
   | .idx1 a i, .elem k, l =>
@@ -196,10 +253,10 @@ def acc (c : Ctx) : Expr → Mode → Nat → List Access × Nat
   | .intr k args, _, l =>
       let ia := c.attrs k
       let rw := c.rule.intrRW ia.pure ia.inquiry false
-      acc c args (.spine (if rw then some .readwrite else none) ia.inquiry) l
+      acc c args (.spine (if rw then some .readwrite else none) 0 ia.inquiry) l
   -- Call.reference_accesses (expression position); always ends with next_location()
   | .fcall pure _ args, _, l =>
-      let r := acc c args (.spine (some (kindOf (c.rule.callRW pure false))) false) l
+      let r := acc c args (.spine (some (kindOf (c.rule.callRW pure false))) 0 false) l
       (r.1, r.2 + 1)
   -- Range / tuple visited as an ordinary node: children in order
   | .nil, _, l => ([], l)
@@ -266,13 +323,24 @@ def accS (c : Ctx) : Stmt → Bool → Nat → Option (List Access × Nat)
       | none => none
       | some rb =>
         some (bumpIf bump (⟨v, .write, l, 0⟩ :: ⟨v, .read, l, 0⟩ :: (r1.1 ++ r2.1 ++ r3.1 ++ rb.1), rb.2))
-  | .call pure _ args, bump, l =>
-      let r := acc c args (.spine (some (kindOf (c.rule.callRW pure true))) false) l
+  | .while cnd b, bump, l =>
+      -- WhileLoop.reference_accesses: condition, next_location, body, next_location
+      let r := acc c cnd .val l
+      match accS c b false (r.2 + 1) with
+      | none => none
+      | some r1 => some (bumpIf bump (r.1 ++ r1.1, r1.2 + 1))
+  -- Return (and, before the fix, CodeBlock) has no reference_accesses of its own: nothing is recorded
+  | .ret, bump, l => some (bumpIf bump ([], l))
+  | .opaque _ names _ _, bump, l =>
+      some (bumpIf bump (if c.rule.cbRW then names.map (fun x => ⟨x, .readwrite, l, 0⟩) else [], l))
+  | .call pure mods _ args, bump, l =>
+      let mask := if c.rule.useIntents && pure then mods.getD 0 else 0
+      let r := acc c args (.spine (some (kindOf (c.rule.callRW pure true))) mask false) l
       some (bumpIf bump (r.1, r.2 + 1))
   | .icall k _ args, bump, l =>
       let ia := c.attrs k
       let rw := c.rule.intrRW ia.pure ia.inquiry true
-      some (bumpIf bump (acc c args (.spine (if rw then some .readwrite else none) ia.inquiry) l))
+      some (bumpIf bump (acc c args (.spine (if rw then some .readwrite else none) 0 ia.inquiry) l))
 
 /-- `VariablesAccessInfo(stmt)`: the flattened access list, or `none` when the code raises -/
 def refAcc (c : Ctx) (s : Stmt) : Option (List Access) := (accS c s false 0).map (·.1)
@@ -291,6 +359,9 @@ structure Oracle where
   fval : Nat → List Int → Int
   upd : Nat → List Int → Nat → Option Int
   ival : Nat → List Int → Int
+  /-- bound on the number of iterations of a DO WHILE that are traced (the theorems hold for
+  every bound, i.e. for every finite prefix of every execution) -/
+  fuel : Nat
 
 /-- result of evaluating an expression: value, store, events, the location when the
 expression is a reference (by-reference argument association), and – for a spine – the
@@ -312,6 +383,20 @@ def applyUpd (u : Nat → Option Int) : List (Int × Option Loc) → Nat → Sto
       | some v =>
         let q := applyUpd u r (p + 1) (σ.set l v)
         (q.1, .wr l :: q.2)
+
+/-- as `applyUpd`, but the callee can only store into the arguments whose bit is set in `mask`
+(`mask` is shifted right at every argument): dummies declared INTENT(IN) are not definable -/
+def applyUpdM (u : Nat → Option Int) : List (Int × Option Loc) → Nat → Nat → Store → Store × List Event
+  | [], _, _, σ => (σ, [])
+  | (_, none) :: r, p, mask, σ => applyUpdM u r (p + 1) (mask / 2) σ
+  | (_, some l) :: r, p, mask, σ =>
+      if mask % 2 = 1 then
+        match u p with
+        | none => applyUpdM u r (p + 1) (mask / 2) σ
+        | some v =>
+          let q := applyUpdM u r (p + 1) (mask / 2) (σ.set l v)
+          (q.1, .wr l :: q.2)
+      else applyUpdM u r (p + 1) (mask / 2) σ
 
 def nth (vs : List Int) (n : Nat) : Int := (vs[n]?).getD 0
 
@@ -374,6 +459,16 @@ def evalT (ω : Oracle) (tb : Nat → IAttr) : Expr → Bool → Store → R
         let r2 := evalT ω tb rest false r1.st
         ⟨r1.val, r2.st, r1.ev ++ r2.ev, none, (r1.val, r1.loc) :: r2.args⟩
 
+/-- evaluation of the subscripts only (the inquired argument of an inquiry intrinsic) -/
+def subsT (ω : Oracle) (tb : Nat → IAttr) (e : Expr) (σ : Store) : Store × List Event :=
+  match e with
+  | .idx1 _ i => ((evalT ω tb i false σ).st, (evalT ω tb i false σ).ev)
+  | .idx2 _ i j =>
+      ((evalT ω tb j false (evalT ω tb i false σ).st).st,
+       (evalT ω tb i false σ).ev ++ (evalT ω tb j false (evalT ω tb i false σ).st).ev)
+  | .idxs _ _ is => ((evalT ω tb is false σ).st, (evalT ω tb is false σ).ev)
+  | _ => (σ, [])
+
 /-- the assigned location of an LHS: its index expressions are evaluated (the element itself
 is not read) -/
 def lhsT (ω : Oracle) (tb : Nat → IAttr) (lhs : Expr) (σ : Store) : Store × List Event × Option Loc :=
@@ -400,6 +495,16 @@ def runItersT (f : Store → Store × List Event) (v : Nat) (lo step : Int) :
   | n + 1, k, q =>
       let q' := f (q.1.set (v, 0, 0) (lo + k * step))
       runItersT f v lo step n (k + 1) (q'.1, q.2 ++ [.wr (v, 0, 0)] ++ q'.2)
+
+/-- at most `fuel` iterations of a DO WHILE: the condition is evaluated before every iteration -/
+def whileT (cond : Store → R) (body : Store → Store × List Event) :
+    Nat → Store × List Event → Store × List Event
+  | 0, q => ((cond q.1).st, q.2 ++ (cond q.1).ev)
+  | n + 1, q =>
+      if (cond q.1).val ≠ 0 then
+        let q' := body (cond q.1).st
+        whileT cond body n (q'.1, q.2 ++ (cond q.1).ev ++ q'.2)
+      else ((cond q.1).st, q.2 ++ (cond q.1).ev)
 
 /-- Tracing execution.  In an assignment the right-hand side is evaluated first, then the
 subscripts of the target, then the target is stored.  A CALL statement may store into every
@@ -436,9 +541,18 @@ def execT (ω : Oracle) (tb : Nat → IAttr) : Stmt → Store → Store × List 
       let r3 := evalT ω tb st false r2.st
       runItersT (execT ω tb body) v r1.val r3.val (trip r1.val r2.val r3.val) 0
         (r3.st, r1.ev ++ r2.ev ++ r3.ev)
-  | .call _ f args, σ =>
+  | .while cnd b, σ => whileT (evalT ω tb cnd false) (execT ω tb b) ω.fuel (σ, [])
+  -- RETURN ends the routine: the real trace is a prefix of the one obtained by carrying on
+  | .ret, σ => (σ, [])
+  | .opaque f _ rd wr, σ =>
+      let q := applyUpd (ω.upd f []) (wr.map fun x => (0, some (x, 0, 0))) 0 σ
+      (q.1, rd.map (fun x => Event.rd (x, 0, 0)) ++ q.2)
+  | .call _ mods f args, σ =>
       let r := evalT ω tb args false σ
-      let q := applyUpd (ω.upd f (r.args.map (·.1))) r.args 0 r.st
+      let vs := r.args.map (fun a => a.1)
+      let q : Store × List Event := match mods with
+        | some m => applyUpdM (ω.upd f vs) r.args 0 m r.st
+        | none => applyUpd (ω.upd f vs) r.args 0 r.st
       (q.1, r.ev ++ q.2)
   | .icall k f args, σ =>
       let r := evalT ω tb args (tb k).inquiry σ
